@@ -76,6 +76,21 @@ class Exe:
             p, s = "p%d" % r, "s%d" % r
             cmds.append(("new %s usink" % s, ("setup",)))
             cmds.append(("new %s %s" % (p, c["pipe"]), ("setup",)))
+            if c["mode"] == "chain":
+                # chunk_stream -> ts_check -> agg -> sink: the application only keeps the head of the chain
+                m, a = "m%d" % r, "a%d" % r
+                cmds.append(("new %s ts_check" % m, ("setup",)))
+                cmds.append(("new %s agg" % a, ("setup",)))
+                cmds.append(("opt %s set mtu %d,%d" % (p, c["mtu"], c["psize"]), ("setup",)))
+                cmds.append(("opt %s set output_size %d" % (m, c["psize"]), ("setup",)))
+                cmds.append(("opt %s set output_size %d" % (a, c["mtu"]), ("setup",)))
+                cmds.append(("out %s %s" % (a, s), ("setup",)))
+                cmds.append(("out %s %s" % (m, a), ("setup",)))
+                cmds.append(("out %s %s" % (p, m), ("setup",)))
+                cmds.append(("xfd %s mpegtsaligned." % p, ("setup",)))
+                cmds.append(("rel %s" % m, ("setup",)))
+                cmds.append(("rel %s" % a, ("setup",)))
+                continue
             if c["mode"] == "agg":
                 cmds.append(("xfd %s -%s" % (p, (" %d" % c["insize"]) if c["insize"] else ""), ("setup",)))
                 cmds.append(("opt %s set output_size %d" % (p, c["mtu"]), ("setup",)))
@@ -193,7 +208,11 @@ def parse_output(exes, base, stdout):
                 raise vlib.ToolError("pipe_driver: unexpected unit line: " + line[:120])
             h = m.group(3)
             if "!" in h or int(m.group(2)) < 0:
-                raise vlib.ToolError("pipe_driver: unreadable unit: " + line[:120])
+                # the buffer announces more octets than it holds: a verdict for the trace specification
+                got = len(h.split("!")[0]) // 2 if h[0] != "!" else 0
+                cur.events.append({"e": "BadUnit", "r": int(m.group(1)), "n": int(m.group(2)), "got": got})
+                pending_units.append(b"")
+                continue
             b = bytes.fromhex(h) if h != "-" else b""
             cur.events.append({"e": "Unit", "r": int(m.group(1)), "b": list(b)})
             pending_units.append(b)
@@ -557,7 +576,27 @@ def rand_ts_stream(rng, psize, target, bad_ok=True):
     return bytes(out)
 
 
+def chain_exe(rng):
+    """chunk_stream -> ts_check -> agg over a well-formed stream of whole packets, cut anywhere and given in
+    segmented buffers: what comes out of the last pipe is the stream, in units of whole packets of at most mtu
+    octets (the buffers that travel between the pipes are cut, spliced and appended to again)."""
+    psize = rng.choice([4, 8, 188])
+    k = rng.choice([2, 2, 3, 7])
+    mtu = psize * k
+    npk = 1 + rng.below(3 * k + 4)
+    data = bytearray()
+    for i in range(npk):
+        data += b"\x47" + bytes(filler(i * psize + j) if filler(i * psize + j) != 0x47 else 0x48 for j in range(1, psize))
+    data = bytes(data)
+    sizes = rng.choice([[psize], [1, 2, 3], [psize - 1, psize + 1, 1], [mtu], [mtu + psize, 2 * mtu + 1], [1], [0, 1, psize, 3 * psize + 2]])
+    ops = [[1, "in", d, rand_seg(rng, len(d)) if rng.chance(1, 2) else None, False] for d, _ in random_cut(rng, data, [], sizes)]
+    ops.append([1, "rel", b"", None, False])
+    return Exe(conf_of("chain", "chunk_stream", mtu=mtu, align=psize, psize=psize), ops, "random chain")
+
+
 def random_exe(rng, quick):
+    if rng.chance(1, 8):
+        return chain_exe(rng)
     mode = rng.choice(["agg", "chunk", "chunk", "sync", "sync", "sync", "check"])
     if mode == "agg":
         mtu = rng.choice([5, 7, 16, 188, 1316])
@@ -794,7 +833,8 @@ def report(ctx, binp, e, line, inv):
     keyf, evf = key_of(small, rs[0][1], rs[0][2])
     c = small.conf
     sett = {"agg": "mtu=%d insize=%d" % (c["mtu"], c["insize"]), "chunk": "mtu=%d align=%d" % (c["mtu"], c["align"]),
-            "sync": "packet=%d sync=%d" % (c["psize"], c["nsync"]), "check": "packet=%d" % c["psize"]}[c["mode"]]
+            "sync": "packet=%d sync=%d" % (c["psize"], c["nsync"]), "check": "packet=%d" % c["psize"],
+            "chain": "chunk_stream -> ts_check -> agg, mtu=%d packet=%d" % (c["mtu"], c["psize"])}[c["mode"]]
     script = "; ".join(cmd[:70] for cmd, meta in small.cmds if meta[0] == "op")
     what = "%s: %s (%s): event %d %s of the real code is rejected by Rechunk_Trace%s | script: %s" % (
         keyf, c["pipe"], sett, rs[0][1], brief(evf), (" - invariant " + ",".join(rs[0][2])) if rs[0][2] else "", script[:900])
